@@ -25,11 +25,10 @@ REPO_EXC = {'ProphyError': 'Exception'}
 
 # reasoned suppressions of implicit raise sites: one named function + construct each
 SAFE = {
-    ('prophy.composite:distance_to_next_multiply', '_v0 % _v1'):
+    # any spelling of the distance arithmetic divides by the function's second parameter, the alignment
+    ('prophy.composite:distance_to_next_multiply', r'DIVISOR ~ ^alignment$'):
         'alignment >= 1: every _ALIGNMENT is a scalar size (1/2/4/8, F4), a max over such values, or the constant 1 of an '
         'empty struct (F16.layout-formula checks these definitions on every run)',
-    ('prophy.composite:distance_to_next_multiply', '(_v0 - _v1) % _v0'):
-        'same divisor as above: alignment >= 1',
 }
 
 
